@@ -323,6 +323,12 @@ type sim struct {
 	unloadedReads, nProofs int
 	valSeq                 int
 	rawCapDone             bool
+
+	// sib: a SecureTrie.Copy() of the trie under test taken while it may hold
+	// uncommitted changes, with the content it had at that instant; both go on
+	// independently (seeded change C10-7: dirty branch nodes shared by copies)
+	sib      *handle
+	sibModel model
 }
 
 func (s *sim) violate(class, what, format string, a ...interface{}) bool {
@@ -382,8 +388,13 @@ func run(c *kernel.Ctx) {
 		for n := s.cfg.Pick(3, 3, 2, 1) * s.cfg.Range(3, 12); n > 0 && !s.stop; n-- {
 			s.opUpdate()
 		}
+		forks := s.secure && s.cfg.Bool(1, 2)
 		for s.step = 0; s.step < nsteps && !s.stop; s.step++ {
 			c.Event(1)
+			if forks && s.ops.Bool(1, 6) {
+				s.opSibling()
+				continue
+			}
 			switch s.ops.Pick(w...) {
 			case 0:
 				s.opUpdate()
@@ -421,6 +432,9 @@ func run(c *kernel.Ctx) {
 		}
 		if !s.stop {
 			s.checkpoint(true)
+		}
+		if !s.stop && s.cfg.Bool(1, 40) {
+			s.bulkTail()
 		}
 	})
 	if p {
@@ -719,6 +733,7 @@ func (s *sim) opRestart() {
 		s.c.Fault("restart-loses-unflushed-commits")
 	}
 	s.tdb = trie.NewDatabase(s.disk)
+	s.sib, s.sibModel = nil, nil
 	t, err := openTrie(s.secure, s.flushedRoot, s.tdb, s.cachelimit)
 	if err != nil {
 		s.violate("lookup", "restart/error", "New(%x) after restart failed although that root was flushed with TrieDB.Commit: %v", s.flushedRoot, err)
@@ -797,4 +812,142 @@ func (s *sim) opCapOverRawMemDB() {
 			s.stop = true
 		}
 	}
+}
+
+// ---------------------------------------------------------------- copies
+
+// twinRoot builds the content of m in a fresh trie over a fresh database.
+func (s *sim) twinRoot(m model) (common.Hash, error) {
+	t, err := openTrie(s.secure, common.EmptyHash, trie.NewDatabase(dbm.NewMemDB()), 0)
+	if err != nil {
+		return common.Hash{}, err
+	}
+	for _, k := range m.keys() {
+		if err := t.update([]byte(k), m[k]); err != nil {
+			return common.Hash{}, err
+		}
+	}
+	return t.hash(), nil
+}
+
+// opSibling: take a copy of the (possibly dirty) secure trie, or work on the
+// copy taken earlier: a few updates/deletes on ONE of the two, then every
+// lookup on BOTH must give that trie's own last written values and both roots
+// must be the roots of their own content.
+func (s *sim) opSibling() {
+	if s.sib == nil || s.ops.Bool(1, 5) {
+		s.tracef("sibling = Copy() of the trie (dirty=%v)", s.dirtySince)
+		s.c.Fault("copy-of-dirty-trie")
+		s.sib, s.sibModel = &handle{secure: true, st: s.t.st.Copy()}, s.m.clone()
+		return
+	}
+	onSib := s.ops.Bool(1, 2)
+	for n := s.ops.Range(1, 4); n > 0 && !s.stop; n-- {
+		if onSib {
+			k, v := s.genKey(), s.genVal()
+			if s.ops.Bool(1, 4) && len(s.sibModel) > 0 {
+				ks := s.sibModel.keys()
+				k = []byte(ks[s.ops.Int(len(ks))])
+				s.tracef("sibling.delete(%s)", hx(k))
+				if err := s.sib.del(k); err != nil {
+					s.violate("lookup", "copy/error", "TryDelete on a copy failed: %v", err)
+					return
+				}
+				delete(s.sibModel, string(k))
+				continue
+			}
+			s.tracef("sibling.update(%s,%s)", hx(k), hx(v))
+			if err := s.sib.update(k, v); err != nil {
+				s.violate("lookup", "copy/error", "TryUpdate on a copy failed: %v", err)
+				return
+			}
+			s.sibModel[string(k)] = v
+		} else {
+			s.opUpdate()
+		}
+	}
+	if s.stop {
+		return
+	}
+	s.c.Evals(1)
+	for _, side := range []struct {
+		name string
+		h    *handle
+		m    model
+	}{{"the copy", s.sib, s.sibModel}, {"the original", s.t, s.m}} {
+		for _, k := range side.m.keys() {
+			got, err := side.h.get([]byte(k))
+			if err != nil || string(got) != string(side.m[k]) {
+				s.violate("lookup", "copy/lookup-not-last-written", "after updates on %s, %s: Get(%s) = %s (err %v), last written there: %s", map[bool]string{true: "the copy", false: "the original"}[onSib], side.name, hx([]byte(k)), hx(got), err, hx(side.m[k]))
+				return
+			}
+		}
+		// a key the other side wrote and this side never had
+		other := s.m
+		if side.h == s.t {
+			other = s.sibModel
+		}
+		for _, k := range other.keys() {
+			if _, ok := side.m[k]; ok {
+				continue
+			}
+			if got, err := side.h.get([]byte(k)); err == nil && len(got) > 0 {
+				s.violate("lookup", "copy/lookup-sees-other-copy", "%s: Get(%s) = %s although that key was only written to the other copy", side.name, hx([]byte(k)), hx(got))
+				return
+			}
+			break
+		}
+		want, err := s.twinRoot(side.m)
+		if err != nil {
+			s.c.HarnessTrouble("twin: %v", err)
+			return
+		}
+		if got := side.h.hash(); got != want {
+			s.violate("canonical", "copy/root-not-of-own-content", "%s: Hash() = %x, a fresh trie with the same %d entries has %x", side.name, got, len(side.m), want)
+			return
+		}
+	}
+	s.c.Probe("copy-pair-checked")
+}
+
+// bulkTail: a commit that flushes more than the database's ideal batch size
+// (100 KiB) of node data in one Database.Commit, then a restart from disk:
+// every entry must be there (seeded change C10-8: the batch was reset before it
+// was written once it had reached the threshold).
+func (s *sim) bulkTail() {
+	n := s.cfg.Range(1200, 2600)
+	s.tracef("bulk: %d fresh entries, commit, flush, restart", n)
+	s.c.Fault("bulk-commit-over-batch-threshold")
+	for i := 0; i < n && !s.stop; i++ {
+		k := crypto.Keccak256([]byte(fmt.Sprintf("bulk-%d-%d", i, s.valSeq)))[:8+i%24]
+		v := make([]byte, 40+i%90)
+		for j := range v {
+			v[j] = byte(i + j*7)
+		}
+		v[0] |= 1
+		if err := s.t.update(k, v); err != nil {
+			s.violate("lookup", "update/error", "TryUpdate failed without any fault: %v", err)
+			return
+		}
+		s.m[string(k)] = v
+		s.dirtySince = true
+	}
+	s.opFlush()
+	if s.stop {
+		return
+	}
+	s.opRestart()
+	if s.stop {
+		return
+	}
+	// iteration enumerates exactly that content
+	it := trie.NewIterator(s.t.nodeIterator(nil))
+	cnt := 0
+	for it.Next() {
+		cnt++
+	}
+	if cnt != len(s.m) {
+		s.violate("iteration", "bulk/iteration-count", "after a bulk commit and restart iteration yields %d entries, content has %d", cnt, len(s.m))
+	}
+	s.c.Probe("bulk-commit-restart-checked")
 }
